@@ -13,6 +13,7 @@
 #include "verif.h"
 #include "alloc.h"
 #include "ref_slice.h"
+#include "longpat.h"
 #include "st_string.h"
 
 using vf::Ctx;
@@ -422,8 +423,15 @@ static void build(vf::Plan &plan, const vf::Opts &o)
         "an empty separator may be read as 'does not occur' or 'occurs at the edge': (before,after) must be (whole,empty) or (empty,whole)",
         "over-reads of the subject are observed through wrong result bytes (fresh heap blocks are 0xCD-filled) and ASan in the thorough tier; C-string arguments end at a PROT_NONE page"};
 
+    // VF_REDUCED: the ASan+UBSan build of the quick tier runs the stages whose subjects live on the heap (reads past the
+    // subject's block, which the plain build cannot see)
+#ifdef VF_REDUCED
+    const bool reduced = true;
+#else
+    const bool reduced = false;
+#endif
     // ---- substr
-    const unsigned maxlen = T ? 80 : 40;
+    const unsigned maxlen = reduced ? 20 : T ? 80 : 40;
     struct Tables {
         std::vector<std::vector<int64_t>> starts;
         std::vector<std::vector<uint64_t>> counts;
@@ -495,7 +503,7 @@ static void build(vf::Plan &plan, const vf::Opts &o)
 
     // ---- trim
     const std::string TA(" \t\nx\0", 5);
-    const unsigned TL = T ? 8 : 6;
+    const unsigned TL = reduced ? 3 : T ? 8 : 6;
     plan.stage(strf("trim*:{SP,TAB,LF,x,NUL}^<=%u x 6 charsets", TL), vf::seq_count(TA.size(), TL) * NCHARSETS,
                [TA, TL](uint64_t idx, Ctx &c) {
                    int csi = (int)vf::take(idx, NCHARSETS);
@@ -519,7 +527,7 @@ static void build(vf::Plan &plan, const vf::Opts &o)
 
     // ---- before / after
     const std::string SA("abA:\0", 5);
-    const unsigned SL = T ? 7 : 6;
+    const unsigned SL = reduced ? 3 : T ? 7 : 6;
     const uint64_t nsep = vf::seq_count(SA.size(), 3);
     plan.stage(strf("before/after:{a,b,A,':',NUL}^<=%u x sep^<=3 x 4 forms x cs/ci", SL), vf::seq_count(SA.size(), SL) * nsep,
                [SA, SL, nsep](uint64_t idx, Ctx &c) {
@@ -552,6 +560,25 @@ static void build(vf::Plan &plan, const vf::Opts &o)
                    std::string sep = seq_string(vf::take(idx, nfsep), FA, 2);
                    return strf("s=%s sep=%s", vf::vis(seq_string(idx, FA, 3)).c_str(), vf::vis(sep).c_str());
                });
+    // ---- long separators with a near-miss in the text (see longpat.h), every length across 8 / 16 / 32 / 64
+    {
+        auto cases = std::make_shared<std::vector<lp::LN>>(lp::cases(T));
+        auto &st = plan.stage(strf("before/after:long separators: lengths %s, one byte of the occurrence flipped in bit 5 / incremented at every position, "
+                                   "10 byte classes, 3 contexts", lp::lens_text(T)),
+                              cases->size(),
+                              [cases](uint64_t i, Ctx &c) {
+                                  std::string text, sep;
+                                  lp::make((*cases)[i], text, sep);
+                                  check_sides(c, text, sep);
+                                  c.nontrivial();
+                              },
+                              [cases](uint64_t i) {
+                                  std::string text, sep;
+                                  lp::make((*cases)[i], text, sep);
+                                  return strf("s=%s sep=%s", vf::vis(text).c_str(), vf::vis(sep).c_str());
+                              });
+        st.case_timeout_s = 10;
+    }
 }
 
 VF_MAIN("C08", build)
